@@ -110,6 +110,7 @@ class St(object):
     modes = [0]
     if self.preempts < p['max_preempt']:
       modes += list(range(1, p['preempt_depth'] + 1))
+    kinds = p.get('kinds', 'SXTA')
     if len(self.acts) < p['max_actions']:
       for k in range(len(self.dts)):
         if lp.now() + self.dts[k] > self.horizon - 2 * self.res:
@@ -117,12 +118,12 @@ class St(object):
         for j in modes:
           ops.append(['S', k, j])
     for i, a in enumerate(self.acts):
-      if a['cancelled_at'] is None:
+      if a['cancelled_at'] is None and 'X' in kinds:
         for j in modes:
           ops.append(['X', i, j])
     if quiescent:
       t = lp.next_timer()
-      if t is not None and t.at <= self.horizon:
+      if t is not None and t.at <= self.horizon and 'T' in kinds:
         ops.append(['T'])
       for m in range(len(self.advs)):
         if lp.now() + self.advs[m] <= self.horizon:
@@ -239,6 +240,9 @@ CONFIGS = {
     # several overdue deadlines (different past ticks) scheduled in the same instant, after earlier actions have run
     ({'res': 0.01, 'dts': [-0.0325, -0.0225, -0.0125, 0.0125], 'advs': [0.02],
       'max_actions': 4, 'max_preempt': 2, 'preempt_depth': 1}, 6),
+    # many pending actions scheduled in every order of five deadlines (the queue's heap gets several levels deep)
+    ({'res': 0.01, 'dts': [0.0025, 0.0125, 0.0225, 0.0325, 0.0425], 'advs': [], 'kinds': 'S',
+      'max_actions': 7, 'max_preempt': 0, 'preempt_depth': 1}, 7),
   ],
   'thorough': [
     ({'res': 0.01, 'dts': [-0.0125, 0.0025, 0.0125, 0.0275], 'advs': [0.005, 0.02],
@@ -249,6 +253,8 @@ CONFIGS = {
       'max_actions': 3, 'max_preempt': 1, 'preempt_depth': 1}, 7),
     ({'res': 0.01, 'dts': [-0.0325, -0.0225, -0.0125, 0.0125], 'advs': [0.02],
       'max_actions': 4, 'max_preempt': 2, 'preempt_depth': 2}, 7),
+    ({'res': 0.01, 'dts': [0.0025, 0.0125, 0.0225, 0.0325, 0.0425, 0.0525], 'advs': [0.03], 'kinds': 'SA',
+      'max_actions': 8, 'max_preempt': 0, 'preempt_depth': 1}, 8),
   ],
 }
 
